@@ -366,3 +366,6 @@ pub fn c07_linear_srgb_oklab_f32_finite() {
     let c = palette::LinSrgb::<N32>::from_color_unclamped(Oklab::<N32>::new(N32(ol), N32(oa), N32(ob)));
     assert!(fin3(c.red, c.green, c.blue), "Oklab -> linear sRGB is NaN or infinite");
 }
+
+// Attempted and not decided: CIEDE2000 over N32 with all six Lab components symbolic (dozens of symbolic f32 multiplications and
+// divisions) did not finish in 900 s; the harness is not registered. Its real-arithmetic definedness is an Open Engine-S obligation.
